@@ -1,3 +1,5 @@
 SPECIFICATION Spec
-CONSTANTS Depth = 6
+CONSTANTS
+  Depth = 6
+  Mode = "all"
 INVARIANTS RuleSound Emit
